@@ -12,7 +12,7 @@
 # See the License for the specific language governing permissions and
 # limitations under the License.
 import sys
-from ast import NodeTransformer
+from ast import Name, NodeTransformer, walk
 
 from .astrewriter import ASTRewriter
 from .constantfolder import ConstantFolder
@@ -30,8 +30,17 @@ class IndexReplacer(NodeTransformer):
         return self.visit(node.value)
 
 
+RESERVED_PREFIXES = ("_temptup", "_iftarg", "_forit")
+
+
 def ast2ast(a_tree):
     # print(ast.dump(a_tree))
+
+    # Names of the temporaries the rewriting introduces are reserved
+    for n in walk(a_tree):
+        name = getattr(n, "id", None) if isinstance(n, Name) else getattr(n, "arg", None)
+        if isinstance(name, str) and name.startswith(RESERVED_PREFIXES):
+            raise Exception(f"invalid name {name}: reserved for internal use")
 
     # Replace indexes with its content if python < 3.9
     if sys.version_info < (3, 9):
